@@ -95,6 +95,11 @@ func BeginBlocker(ctx sdk.Context, k keeper.Keeper) {
 
 func GetRewardAge(pool types.Pool) uint {
 	totalReward, _ := sdk.ParseCoinNormalized(TOTAL_REWARD)
+	if pool.TotalReward.IsGTE(totalReward) {
+		// everything has been minted: an age no subsidy survives (and no
+		// negative coin / division by zero below, which halted BeginBlock)
+		return 256
+	}
 	remain := totalReward.Sub(pool.TotalReward)
 	t, _ := new(big.Float).SetInt(totalReward.Amount.Quo(remain.Amount).BigInt()).Float64()
 	return uint(math.Log2(t))
